@@ -71,6 +71,7 @@ type schedSpec struct {
 	Favor   string   `json:"favor,omitempty"` // process name prefix that is starved/favoured
 	Label   string   `json:"label,omitempty"` // hold: a process that arrives at this label is kept there ...
 	Nth     int      `json:"nth,omitempty"`   // ... from its nth arrival on (0: always), until nothing else can run
+	Who     string   `json:"who,omitempty"`   // hold: this process runs ahead of the others until it is held
 	After   []string `json:"after,omitempty"` // window: the held process is let go (and then runs alone for Burst steps) as soon as a client call of one of these ops has returned (empty: any op)
 	Burst   int      `json:"burst,omitempty"`
 }
@@ -716,6 +717,7 @@ type chooser struct {
 	change map[int]bool
 	step   int
 	favor  string
+	who    string
 	label  string
 	nth    int
 	seen   int
@@ -731,7 +733,7 @@ type chooser struct {
 }
 
 func newChooser(s schedSpec, maxStep int) *chooser {
-	c := &chooser{kind: s.Kind, rng: rand.New(rand.NewSource(s.Seed)), replay: s.Choices, prio: map[string]int{}, change: map[int]bool{}, favor: s.Favor, label: s.Label, nth: s.Nth, held: map[string]bool{}, after: map[string]bool{}, burst: s.Burst, rets0: map[string]int{}}
+	c := &chooser{kind: s.Kind, rng: rand.New(rand.NewSource(s.Seed)), replay: s.Choices, prio: map[string]int{}, change: map[int]bool{}, favor: s.Favor, who: s.Who, label: s.Label, nth: s.Nth, held: map[string]bool{}, after: map[string]bool{}, burst: s.Burst, rets0: map[string]int{}}
 	for _, a := range s.After {
 		c.after[a] = true
 	}
@@ -841,6 +843,22 @@ func (c *chooser) pick(ps []*gproc, all []*gproc) *gproc {
 			rest = append(rest, p)
 		}
 		if len(rest) > 0 {
+			// optionally the process expected at the label runs ahead of everybody until it is held there ...
+			if c.who != "" && len(c.held) == 0 && c.rng.Intn(8) != 0 {
+				for _, p := range rest {
+					if p.name == c.who {
+						return p
+					}
+				}
+			}
+			// ... and one class of processes runs ahead of the others while it is held
+			if c.favor != "" && len(c.held) > 0 && c.rng.Intn(8) != 0 {
+				for _, p := range rest {
+					if len(p.name) >= len(c.favor) && p.name[:len(c.favor)] == c.favor {
+						return p
+					}
+				}
+			}
 			return rest[c.rng.Intn(len(rest))]
 		}
 		for _, p := range ps {
